@@ -147,3 +147,34 @@ def residual(model, point, initial=False):
 
 def var_names(vs):
     return [v.symbol.name() for v in vs]
+
+
+def complete_point(model, env, salt=0):
+    """values for every symbol of the model's lists: from env by name, expanded scalars 'v[2]' /
+    'der(v)[2]' from their arrays, anything else (delay states, ...) deterministic by name."""
+    import hashlib
+    pt = dict(env)
+    for l in (model.states, model.der_states, model.alg_states, model.inputs, model.constants, model.parameters):
+        for v in l:
+            nm = v.symbol.name()
+            if nm in pt:
+                continue
+            base, ix = nm, None
+            inner = nm
+            if "[" in nm and nm.endswith("]") and not nm.startswith("_pymoca_delay"):
+                base, rest = nm.rsplit("[", 1)
+                ix = tuple(int(t) - 1 for t in rest[:-1].split(","))
+            elif "[" in nm and nm.endswith("])"):
+                # der(v[2]) style
+                b2, rest = nm[:-1].rsplit("[", 1)
+                base, ix = b2 + ")", tuple(int(t) - 1 for t in rest[:-1].split(","))
+            if ix is not None and base in env:
+                pt[nm] = float(np.asarray(env[base], dtype=float)[ix])
+                continue
+            n = v.symbol.numel()
+            vals = []
+            for i in range(n):
+                h = hashlib.sha256(("%s|%d|%d" % (nm, i, salt)).encode()).digest()
+                vals.append(0.5 + (int.from_bytes(h[:4], "big") % 3000) / 1000.0)
+            pt[nm] = np.array(vals).reshape(v.symbol.size1(), v.symbol.size2(), order="F")
+    return pt
